@@ -55,23 +55,20 @@ def mir_slsp(cfg):
                cfg.find_calls(r'Storage::rollback_to_block', required=False))
     q.witness(effects, 'commit_prove_state reachable')
     # request outstanding and answered
-    c = cfg.find_calls(r'PeerState::get_prove_request')[0]
-    q.must_pass(effects, [cfg.option_edges(c)['some']], 'trusted-state mutator reached without an outstanding proof request (get_prove_request = Some)')
-    c = cfg.find_calls(r'ProveRequest::is_same_as')[0]
-    q.must_pass(effects, [cfg.bool_edges(c)['true']], 'trusted-state mutator reached although the response is not for the requested last header (is_same_as)')
+    q.gate(effects, r'PeerState::get_prove_request', 'option', 'trusted-state mutator reached without an outstanding proof request (get_prove_request = Some)')
+    q.gate(effects, r'ProveRequest::is_same_as', 'bool', 'trusted-state mutator reached although the response is not for the requested last header (is_same_as)')
     for name in ['check_if_response_is_matched', 'LightClientProtocol::check_chain_root_for_headers',
                  'LightClientProtocol::check_pow_for_headers', 'check_continuous_headers', 'verify_mmr_proof']:
-        cs = cfg.find_calls(r'(^|[^\w:])' + name + r'\b|^' + name)
-        oks = [cfg.result_edges(x)['ok'] for x in cs]
-        q.must_pass(effects, oks, 'trusted-state mutator reachable without passing the Ok edge of %s' % name)
+        q.gate(effects, r'(^|[^\w:])' + name + r'\b|^' + name, 'result',
+               'trusted-state mutator reachable without passing the Ok edge of %s' % name)
     # nothing after a failed check
     for name in ['check_if_response_is_matched', 'LightClientProtocol::check_chain_root_for_headers',
                  'LightClientProtocol::check_pow_for_headers', 'verify_mmr_proof', 'verify_tau', 'verify_total_difficulty']:
-        for x in cfg.find_calls(r'(^|[^\w:])' + name + r'\b|^' + name):
+        for x in cfg.find_calls(r'(^|[^\w:])' + name + r'\b|^' + name, required=False):
             e = cfg.result_edges(x)['err']
             q.must_not_reach(e[1], effects, 'trusted-state mutator reachable after the Err edge of %s' % name)
     # the two unconditional continuity checks: only the last one may be skipped (it is the `.is_ok()` probe)
-    cs = cfg.find_calls(r'^check_continuous_headers')
+    cs = cfg.find_calls(r'^check_continuous_headers', required=False)
     for x in cs[:2]:
         e = cfg.result_edges(x)['err']
         q.must_not_reach(e[1], effects, 'trusted-state mutator reachable after a failed check_continuous_headers')
@@ -85,12 +82,7 @@ def mir_sls(cfg):
     q.witness(effects, 'update_prove_state_to_child reachable')
     for name, kind in [('LightClientProtocol::check_verifiable_header', 'result'), ('check_last_state', 'result'),
                        ('ProveState::is_parent_of', 'bool')]:
-        cs = cfg.find_calls(r'(^|[^\w:])' + name + r'\b|^' + name)
-        if kind == 'result':
-            oks = [cfg.result_edges(x)['ok'] for x in cs]
-        else:
-            oks = [cfg.bool_edges(x)['true'] for x in cs]
-        q.must_pass(effects, oks, 'child fast path reachable without passing %s' % name)
+        q.gate(effects, r'(^|[^\w:])' + name + r'\b|^' + name, kind, 'child fast path reachable without passing %s' % name)
     return q
 
 
